@@ -66,9 +66,16 @@ def run(ctx):
         reqs_m.append(r)
     rep_i = im.run(reqs_i, prelude=reqs_i[:2])[2:]
     rep_m = mo.run(reqs_m)
+    # characters that canonicalization rewrites whatever the mathvariant ('~' -> U+223C, ...) say nothing about the mapping: found by asking for
+    # the same token without the attribute
+    outside_texts = sorted({text for v, text, kind in cases if kind == "outside"})
+    base_rep = im.run(reqs_i[:2] + [{"op": "set_mathml", "xml": f"<math><mtext>{xml_escape(t)}</mtext></math>"} for t in outside_texts], prelude=reqs_i[:2])[2:]
+    rewritten_anyway = {t for t, r in zip(outside_texts, base_rep) if r.get("r") != "ok" or core.first_leaf_text(r.get("v", "")) != t}
     disagreements, oracle_fail, nontrivial = [], [], set()
     oracle_reqs, oracle_idx = [], []
     for idx, ((v, text, kind), ri, rm) in enumerate(zip(cases, rep_i, rep_m)):
+        if kind == "outside" and text in rewritten_anyway:
+            continue
         got = core.first_leaf_text(ri.get("v", "")) if ri.get("r") == "ok" else None
         exp = rm.get("v") if rm.get("r") == "ok" else None
         if got is None or exp is None or got != exp:
@@ -107,7 +114,7 @@ def run(ctx):
         "evaluations": len(cases), "distinct_nontrivial": len(nontrivial),
         "rule": "exhaustive echo of every (variant, key) pair of the generated table through set_mathml, plus all keys in one token, "
                 "characters outside the key set, unmapped variant values and (thorough) random texts; non-trivial = the library changed the text",
-        "exhaustive": True, "oracle_checks": len(o_reqs2),
+        "exhaustive": True, "oracle_checks": len(o_reqs2), "outside_characters_rewritten_without_mathvariant_skipped": len(rewritten_anyway),
         "kinds": {k: sum(1 for c in cases if c[2] == k) for k in sorted(set(c[2] for c in cases))},
         "model_vs_impl_disagreements": disagreements[:20], "impl_vs_oracle_failures": oracle_fail[:20],
         "samples": [{"variant": v, "text": t, "impl": core.first_leaf_text(ri.get("v", "")) if ri.get("r") == "ok" else ri}
